@@ -644,12 +644,20 @@ start:
 						// the tag and is the tag's interface value itself.
 						s.set(v, s.get(tuple.Tag))
 					} else {
-						// There is no Extract for the 'untyped nil' case,
-						// which means that executing any Extract from a type
-						// switch implies that the switched-over value wasn't a
-						// nil interface value.
-						s.setOuter(tuple.Tag, NeverNil)
 						typ := tuple.Conds[idx]
+						if b, ok := typ.(*types.Basic); ok && b.Kind() == types.UntypedNil {
+							// A clause consisting of just 'nil' has no
+							// Extract, but 'nil' may be part of a clause
+							// listing several types. In that case the value
+							// is the nil interface value itself.
+							s.set(tuple.Tag, ValueNilness{AlwaysNil, AlwaysNil})
+							s.set(v, ValueNilness{AlwaysNil, AlwaysNil})
+							continue
+						}
+						// Executing an Extract for any other case implies
+						// that the switched-over value wasn't a nil
+						// interface value.
+						s.setOuter(tuple.Tag, NeverNil)
 						if types.IsInterface(typ) && !typeparams.IsTypeParam(typ) {
 							// Succesfully type asserting to an interface type
 							// always produces a non-nil interface value.
